@@ -144,7 +144,13 @@ pub fn random_program_on(rng: &mut Rng, n: usize, rets: bool, regs: &[u8]) -> Ve
     let mut p = vec![];
     for _ in 0..n {
         let r = *rng.pick(regs);
-        let t = rng.below(n as u64 + 1) as usize;
+        // a branch target is any instruction of the program (or its end); fairly often the very next instruction — a taken
+        // branch that goes nowhere is still a taken branch —, or the branch itself
+        let t = match rng.below(10) {
+            0 | 1 => p.len() + 1,
+            2 => p.len(),
+            _ => rng.below(n as u64 + 1) as usize,
+        };
         let i = match rng.below(20) {
             0 | 1 => mov_r_imm32(r, rng.below(6) as u32),
             2 => alu_r_imm8(0, r, rng.below(4) as u8),
@@ -560,9 +566,50 @@ pub fn gen_c14(tier: &str, seed: u64, out: &mut Vec<String>) {
     let mut rng = Rng::new(seed ^ 0xC14);
     let n = if tier == "thorough" { 2000 } else { 200 };
     const BUF: u64 = 0x20_0000; // fd slots: BUF + 16*k ; data buffers above
-    for _ in 0..n {
+    for case in 0..n {
         let prog = vec![syscall(), jmp(0, false)];
         let (code, _) = assemble(&prog, CODE);
+        if case % 40 == 39 {
+            // a long backlog: hundreds of kilobytes written before anything is read, then read back in other chunk sizes;
+            // every chunk starts with its number so that loss or reordering anywhere shows
+            emit_new(out, &code, CODE);
+            out.push(setregs_at(&mut rng, CODE));
+            let big = BUF + 0x1000;
+            out.push(format!("zero {:x} 12000 ~", BUF));
+            out.push("syscalls 22".into());
+            out.push("rw 64 RAX 16".into());
+            out.push(format!("rw 64 RDI {:x}", BUF));
+            out.push("step".into());
+            out.push("step".into());
+            let chunk = *rng.pick(&[0x3ff0u64, 0x4000, 0x7ff8, 0x8000]);
+            let pattern: Vec<u8> = (0..0x400).map(|k| (k as u8) ^ 0x5a).collect();
+            for k in 0..(chunk / 0x400 + 1) {
+                out.push(format!("mwb {:x} {}", big + 0x400 * k, hex(&pattern)));
+            }
+            let writes = 3 + rng.below(8);
+            for k in 0..writes {
+                out.push(format!("mw 8 {:x} {:x}", big, 0x1111_0000 + k));
+                out.push("rw 64 RAX 1".into());
+                out.push(format!("ldreg RDI {:x}", BUF + 8));
+                out.push(format!("rw 64 RSI {:x}", big));
+                out.push(format!("rw 64 RDX {:x}", chunk));
+                out.push("step".into());
+                out.push("rr 64 RAX".into());
+                out.push("step".into());
+            }
+            let rchunk = *rng.pick(&[0x3000u64, 0x4000, 0x7000, 0x8001]);
+            for _ in 0..(writes * chunk / rchunk + 2) {
+                out.push("rw 64 RAX 0".into());
+                out.push(format!("ldreg RDI {:x}", BUF));
+                out.push(format!("rw 64 RSI {:x}", big + 0x8800));
+                out.push(format!("rw 64 RDX {:x}", rchunk));
+                out.push("step".into());
+                out.push("rr 64 RAX".into());
+                out.push(format!("mrb {:x} {:x}", big + 0x8800, rchunk));
+                out.push("step".into());
+            }
+            continue;
+        }
         emit_new(out, &code, CODE);
         out.push(setregs_at(&mut rng, CODE));
         out.push(format!("zero {:x} 2000 ~", BUF));
@@ -659,7 +706,14 @@ pub fn gen_c14(tier: &str, seed: u64, out: &mut Vec<String>) {
                 }
                 4..=7 => {
                     // read from the read end: smaller, equal, larger than what is there
-                    let len = match rng.below(5) { 0 => 0, 1 => 1, 2 => 0x200, _ => rng.below(0x80) };
+                    // (also counts far beyond anything a pipe holds: what is delivered is min(count, available))
+                    let len = match rng.below(7) {
+                        0 => 0,
+                        1 => 1,
+                        2 => 0x200,
+                        3 => *rng.pick(&[u64::MAX, 1 << 63, 0u64.wrapping_sub(data), 0u64.wrapping_sub(data).wrapping_sub(1), 1 << 32]),
+                        _ => rng.below(0x80),
+                    };
                     out.push("rw 64 RAX 0".into());
                     out.push(format!("ldreg RDI {:x}", BUF + 16 * p));
                     out.push(format!("rw 64 RSI {:x}", data));
